@@ -504,11 +504,25 @@ func (c *evalCtx) runSelect(st *ast.SelectStmt, tx *txn, recs []*rowRec, lock bo
 		return nil, err
 	}
 	if lock {
+		// SKIP LOCKED leaves out the rows another transaction has locked, NOWAIT fails at once on the first of
+		// them (the LIMIT has been applied before: an approximation, MySQL skips first)
+		mode := ast.SelectLockForUpdate
+		if st.LockInfo != nil {
+			mode = st.LockInfo.LockType
+		}
+		kept := recs[:0:0]
 		for _, r := range recs {
 			if err := c.s.lockRow(c.t, tx, r); err != nil {
+				if _, blocked := err.(*wouldBlock); blocked && mode == ast.SelectLockForUpdateSkipLocked {
+					continue
+				} else if blocked && mode == ast.SelectLockForUpdateNoWait {
+					return nil, myErr(3572, "Statement aborted because lock(s) could not be acquired immediately and NOWAIT is set.")
+				}
 				return nil, err
 			}
+			kept = append(kept, r)
 		}
+		recs = kept
 	}
 	out := &outcome{}
 	if hasAgg {
